@@ -59,8 +59,8 @@ func init() {
 		Level:     "other",
 		Technique: "must-facts: validation precedes every state change; dispatch coverage of the record types; numeric limits as facts at the accepting exits of the validators; digit fact on the first byte before every decimal Atoi",
 		Explanation: "D1 Register/RegisterTLD reach their first effect only after splitAndCheck accepted the name, AddRecord/SetRecord only after the type-specific validator accepted the data (A: checkIPv4, AAAA: checkIPv6, CNAME: name syntax, TXT: ≤ 255) and only for these four types; the accepting exits of the name validators establish 3 ≤ len ≤ 255, fragment length 1..63 (root: ≤ 16, first byte a letter). " +
-			"D2 sign-accepting parser: every decimal std.Atoi/Atoi10 in a validator is reached only with the first byte of its argument established to be a digit. D3 first and last byte of an accepted fragment are in [a-z0-9], the inner bytes are checked by one loop over 1…len−2 whose iterations complete only for '-' or [a-z0-9]. M: the fragment validator and safeSplitAndCheck are decided in both directions: no rejecting exit is satisfiable together with every documented condition.",
-		NotCovered: "that the validators accept exactly the well-formed strings (hand-written scanners over run-time strings: IPv6 groups, inner hyphens, boundary lengths) — declared not applicable to this family.",
+			"D2 sign-accepting parser: every decimal std.Atoi/Atoi10 in a validator is reached only with the first byte of its argument established to be a digit. D3 first and last byte of an accepted fragment are in [a-z0-9], the inner bytes are checked by one loop over 1…len−2 whose iterations complete only for '-' or [a-z0-9]. M: the fragment validator and safeSplitAndCheck are decided in both directions: no rejecting exit is satisfiable together with every documented condition. R6: a decimal fragment is accepted only if it does not start with '0' or is one byte long (canonical-decimal); in the ':'-splitting validator the zero-filled range of the elided run and the shifted slot of a later group are adjacent (gap-alignment).",
+		NotCovered: "that the validators accept exactly the well-formed strings (hand-written scanners over run-time strings: IPv6 groups, inner hyphens, boundary lengths) — declared not applicable to this family; of the IPv4/IPv6 scanners only the leading-zero and the gap-alignment clauses are decided.",
 		Run:        runC18,
 	})
 }
@@ -2082,11 +2082,47 @@ func runC18(cx *CheckCtx) {
 			arg := s.Args[0]
 			c0 := tb.mk("index", "", 0, arg, tb.constInt(0))
 			ok := a.holdsAt(s.In, -a.litLtC(c0, '0')) && a.holdsAt(s.In, a.litLtC(c0, '9'+1))
+			// canonical decimal: an iteration of the fragment loop is completed (the fragment accepted) only
+			// when the fragment does not start with '0' or is the single digit "0" — "01" and "00" are not
+			// the canonical spelling of any octet
+			if hdr := innermostLoop(s.Instr.Block()); hdr != nil && s.Ctx == tb.root {
+				okCanon, nBack := true, 0
+				for _, p := range hdr.Preds {
+					if !hdr.Dominates(p) {
+						continue
+					}
+					st := a.edgeState(tb.root, p, hdr)
+					if st == nil {
+						continue
+					}
+					nBack++
+					if os.Getenv("DBGCANON") != "" {
+						for _, l := range st.dump(a.lt) {
+							fmt.Println("   CANON", l)
+						}
+					}
+					if !a.holdsAt(st, -a.litEqC(c0, '0'), a.litLtC(a.litLen(arg), 2)) {
+						okCanon = false
+					}
+				}
+				cx.decide(okCanon && nBack > 0, "canonical-decimal", "contracts/nns."+n, "a fragment is accepted only if it does not start with '0' or is exactly one byte long", n+" can accept a decimal fragment with a leading zero (\"00\", \"01\"): the address is not in its canonical dotted form, two spellings of one address are both stored", s.Where(w))
+			}
 			cx.decide(ok, "sign-accepting-parser", "contracts/nns."+n, "the first byte of the parsed fragment is established to be a digit", "std.Atoi accepts a leading sign: "+n+" parses "+arg.pretty()+" without establishing that its first byte is a digit, so \"+1.2.3.4\" is accepted as a canonical address", s.Where(w))
 		}
 	}
 	cx.count("decimal_atoi_sites", nAtoi)
 	cx.floor("decimal_atoi_sites", 1)
+	// elided-run expansion of the textual IPv6 validator (the one that splits at ':')
+	nGap := 0
+	for _, n := range names {
+		f, ok := sp.Members[n].(*ssa.Function)
+		if !ok || f.Blocks == nil || !returnsBool(f) || len(f.Params) != 1 || !callsWithConstArg(f, "native/std.StringSplit", 1, ":") {
+			continue
+		}
+		nGap += checkGapAlignment(cx, f)
+	}
+	cx.count("gap_alignment_pairs", nGap)
+	cx.floor("gap_alignment_pairs", 1)
 }
 
 func returnsBool(f *ssa.Function) bool {
